@@ -1649,10 +1649,11 @@ where
                         }
                     }
                     PropertyEscapeKind::StringSet(_) if negate => error("Invalid character escape"),
-                    PropertyEscapeKind::StringSet(strings) => Ok(ir::Node::StringSet {
-                        alternatives: strings.iter().map(|s| Box::from(*s)).collect(),
-                        icase: self.flags.icase,
-                    }),
+                    // Go through into_node so the strings are tried longest first.
+                    PropertyEscapeKind::StringSet(strings) => Ok(ClassSetAlternativeStrings(
+                        strings.iter().map(|s| Box::from(*s)).collect(),
+                    )
+                    .into_node(self.flags.icase)),
                 }
             }
 
